@@ -82,6 +82,45 @@ fn main() {
         if line.is_empty() || line.starts_with('#') {
             continue;
         }
+        if line == "info" {
+            // static facts of every MockFn of the inventory, as the runtime sees them (verif::mock_fn_facts)
+            writeln!(out, "case info").unwrap();
+            macro_rules! facts {
+                ($mid:expr, $f:ty) => {{
+                    let (t, m, d, p) = unimock::verif::mock_fn_facts::<$f>();
+                    writeln!(out, "{} {} {} {} {}", $mid, t, m, d, p).unwrap();
+                }};
+            }
+            use inventory::*;
+            facts!(0, TMock::m0);
+            facts!(1, TMock::m1);
+            facts!(2, TMock::m2);
+            facts!(3, TMock::m3);
+            facts!(4, TMock::m4);
+            facts!(5, TMock::m5);
+            fn facts_of<F: MockFn>(_: F) -> (&'static str, &'static str, bool, bool) {
+                unimock::verif::mock_fn_facts::<F>()
+            }
+            for (mid, (t, m, d, p)) in [(6, facts_of(GMock::g.with_types::<u8>())), (7, facts_of(GMock::g.with_types::<u16>()))] {
+                writeln!(out, "{mid} {t} {m} {d} {p}").unwrap();
+            }
+            #[cfg(feature = "std-build")]
+            facts!(8, unimock::mock::std::process::TerminationMock::report);
+            facts!(10, DMock::r0);
+            facts!(11, DMock::r1);
+            facts!(12, DMock::u2);
+            facts!(13, DMock::u3);
+            facts!(14, DMock::p_ref);
+            facts!(15, DMock::p_mut);
+            facts!(16, DMock::p_val);
+            facts!(17, DMock::p_rc);
+            facts!(18, DMock::p_arc);
+            facts!(19, DMock::p_pin);
+            facts!(20, DMock::m_mut);
+            writeln!(out, "--").unwrap();
+            out.flush().unwrap();
+            continue;
+        }
         let case = parse_case(line);
         writeln!(out, "case {}", case.id).unwrap();
         out.flush().unwrap();
